@@ -396,6 +396,7 @@ structure CloneCtx (s0 : State) (dst : HeapId) (rgen : Option Nat) (fixed : Bool
   share : ∀ v o, Rel v → s0.obj v = some o → shareable s0 rgen v = true → o.owner <+: dst
   noShallow : ∀ v o, Rel v → s0.obj v = some o → shareable s0 rgen v = false →
     o.kind = .shallow → fixed = true
+  code : ∀ v o, Rel v → s0.obj v = some o → o.kind = .code → o.owner <+: dst
 
 /-- Invariant of the cloner state. -/
 structure CI (s0 : State) (dst : HeapId) (c : Cl) : Prop where
@@ -570,12 +571,17 @@ theorem cloneVal_post {s0 : State} {dst thr : HeapId} {rgen : Option Nat} {fixed
       cases hk : o.kind with
       | udata => simp [hk] at h
       | thread => simp [hk] at h
+      | code =>
+        simp only [hk, Option.some.injEq, Prod.mk.injEq] at h
+        obtain ⟨rfl, rfl⟩ := h
+        exact ⟨hci, Ext.refl _, ⟨o, hoc, ctx.code v o hrel ho hk⟩, fun n h1 h2 => by omega⟩
       | plain =>
         simp only [hk] at h
         exact viaVisited_post _ ih hci (hedges (by simp [hk])) (Or.inl rfl) (by simp) h
       | shallow =>
         have hfx := ctx.noShallow v o hrel ho hs' hk
-        simp only [hk, hfx, if_true] at h
+        subst hfx
+        simp only [hk, if_true] at h
         exact viaVisited_post _ ih hci (hedges (by simp [hk])) (Or.inl rfl) (by simp) h
       | cell =>
         simp only [hk] at h
@@ -608,5 +614,223 @@ theorem cloneVal_post {s0 : State} {dst thr : HeapId} {rgen : Option Nat} {fixed
                 exact (pl.ok e he).mono pl.ci.wf hx
               · have : n < c2.s.next := by simp [State.push] at h2; omega
                 exact (pl.fin n h1 this).mono pl.ci.wf hx
+
+/-- No dangling pointers: every out-edge of a live object is live. -/
+def NoDangling (s : State) : Prop := ∀ q o, s.obj q = some o → ∀ e ∈ o.edges, ∃ oe, s.obj e = some oe
+
+theorem deepClone_post {s0 s' : State} {dst thr : HeapId} {rgen : Option Nat} {fixed : Bool}
+    {Rel : Nat → Prop} (ctx : CloneCtx s0 dst rgen fixed Rel) {v r : Nat} (hv : Rel v)
+    (h : deepClone s0 dst thr rgen fixed v = some (s', r)) :
+    WF s' ∧ Ext s0 s' ∧ OKo s' dst r ∧ ∀ n, s0.next ≤ n → n < s'.next → Fin s' dst thr n := by
+  unfold deepClone at h
+  cases hc : cloneVal dst thr rgen fixed (cloneFuel s0) ⟨s0, []⟩ v with
+  | none => simp [hc] at h
+  | some p =>
+    obtain ⟨c, r'⟩ := p
+    simp only [hc, Option.some.injEq, Prod.mk.injEq] at h
+    obtain ⟨rfl, rfl⟩ := h
+    have hci : CI s0 dst ⟨s0, []⟩ := ⟨ctx.wf, Ext.refl _, by intro v n h; simp at h⟩
+    have p := cloneVal_post (thr := thr) ctx _ _ _ _ _ hci hv hc
+    exact ⟨p.ci.wf, p.ext, p.ok, p.fin⟩
+
+/-- The cloner keeps the heap invariant (also when it clones into the global heap on behalf of a
+    thread, `dst = []`). -/
+theorem deepClone_inv {s0 s' : State} {dst thr : HeapId} {rgen : Option Nat} {fixed : Bool}
+    {Rel : Nat → Prop} (ctx : CloneCtx s0 dst rgen fixed Rel) (hnd : NoDangling s0)
+    (hinv : Inv s0) (hthr : dst <+: thr) {v r : Nat} (hv : Rel v)
+    (h : deepClone s0 dst thr rgen fixed v = some (s', r)) : Inv s' := by
+  obtain ⟨hwf', hext, _, hfin⟩ := deepClone_post ctx hv h
+  intro q oq p op hq he hp
+  by_cases hqo : q < s0.next
+  · rw [hext.2 q hqo] at hq
+    obtain ⟨op0, hp0⟩ := hnd q oq hq p he
+    have hplt := ctx.wf.lt hp0
+    rw [hext.2 p hplt] at hp
+    exact hinv q oq p op hq he hp
+  · obtain ⟨o, ho, hown, hhome, _, hedges⟩ := hfin q (by omega) (hwf'.lt hq)
+    rw [ho] at hq; cases hq
+    obtain ⟨oe, hoe, hpre⟩ := hedges p he
+    rw [hoe] at hp; cases hp
+    rcases hhome with hh | ⟨hh, _⟩
+    · rw [hh]; exact hpre
+    · rw [hh]; exact hpre.trans hthr
+
+theorem deepClone_homed {s0 s' : State} {dst : HeapId} {rgen : Option Nat} {fixed : Bool}
+    {Rel : Nat → Prop} (ctx : CloneCtx s0 dst rgen fixed Rel) (hh : Homed s0) {v r : Nat}
+    (hv : Rel v) (h : deepClone s0 dst dst rgen fixed v = some (s', r)) : Homed s' := by
+  obtain ⟨hwf', hext, _, hfin⟩ := deepClone_post ctx hv h
+  intro q oq hq hk
+  by_cases hqo : q < s0.next
+  · rw [hext.2 q hqo] at hq
+    exact hh q oq hq hk
+  · obtain ⟨o, ho, hown, hhome, _, _⟩ := hfin q (by omega) (hwf'.lt hq)
+    rw [ho] at hq; cases hq
+    rcases hhome with h1 | ⟨h1, _⟩ <;> rw [h1, hown]
+
+/-! ### The generation shortcut -/
+
+/-- Objects the cloner looks at: below `v0`, descending only through objects it copies. -/
+inductive CopyReach (s : State) (rgen : Option Nat) (v0 : Nat) : Nat → Prop
+  | root : CopyReach s rgen v0 v0
+  | step {q p o} : CopyReach s rgen v0 q → s.obj q = some o → shareable s rgen q = false →
+      o.kind ≠ .thread → p ∈ o.edges → CopyReach s rgen v0 p
+
+theorem copyReach_owner {s : State} {rgen : Option Nat} {v0 : Nat} {src : HeapId}
+    (hinv : Inv s) (hh : Homed s) (h0 : ∀ o, s.obj v0 = some o → o.owner <+: src) {p : Nat}
+    (hp : CopyReach s rgen v0 p) : ∀ op, s.obj p = some op → op.owner <+: src := by
+  induction hp with
+  | root => exact h0
+  | @step q p o _ ho _ hk he ih =>
+    intro op hop
+    have h1 := hinv q o p op ho he hop
+    rw [hh q o ho hk] at h1
+    exact h1.trans (ih o ho)
+
+/-- **The generation shortcut is sound when `can_share_values_with` holds**: a value below
+    something thread `src` holds whose generation is at most `dst`'s lives in `dst`'s heap or an
+    ancestor of it, provided one of `src`, `dst` is an ancestor of the other. -/
+theorem shortcut_sound' {s : State} {v0 : Nat} {src dst : HeapId} (hinv : Inv s) (hh : Homed s)
+    (h0 : ∀ o, s.obj v0 = some o → o.owner <+: src) (hcs : src <+: dst ∨ dst <+: src)
+    {p : Nat} {op : Obj} (hp : CopyReach s (some dst.length) v0 p) (hop : s.obj p = some op)
+    (hs : shareable s (some dst.length) p = true) : op.owner <+: dst := by
+  have hsrc := copyReach_owner hinv hh h0 hp op hop
+  rcases hcs with h | h
+  · exact hsrc.trans h
+  · have hlen : op.owner.length ≤ dst.length := by
+      unfold shareable at hs; simpa [hop] using hs
+    exact List.prefix_of_prefix_length_le hsrc h hlen
+
+theorem rgenFor_cases {sameVm : Bool} {src dst : HeapId} :
+    (rgenFor sameVm src dst = some dst.length ∧ (src <+: dst ∨ dst <+: src)) ∨
+    rgenFor sameVm src dst = none := by
+  unfold rgenFor canShare
+  by_cases h : (dst == src || (sameVm && (dst.isPrefixOf src || src.isPrefixOf dst))) = true
+  · left
+    simp only [h, if_true, true_and]
+    simp only [Bool.or_eq_true, Bool.and_eq_true, beq_iff_eq, List.isPrefixOf_iff_prefix] at h
+    rcases h with h | ⟨_, h | h⟩
+    · subst h; exact Or.inl (List.prefix_refl _)
+    · exact Or.inr h
+    · exact Or.inl h
+  · right; simp [h]
+
+theorem cloneCtx_of_transfer {s : State} {sameVm fixed : Bool} {src dst : HeapId} {v0 : Nat}
+    (hwf : WF s) (hnd : NoDangling s) (hinv : Inv s) (hh : Homed s)
+    (hlive : ∃ o, s.obj v0 = some o) (h0 : ∀ o, s.obj v0 = some o → o.owner <+: src)
+    (hns : ∀ p o, CopyReach s (rgenFor sameVm src dst) v0 p → s.obj p = some o →
+      o.kind = .shallow → fixed = true)
+    (hcode : ∀ p o, CopyReach s (rgenFor sameVm src dst) v0 p → s.obj p = some o →
+      o.kind = .code → o.owner = []) :
+    CloneCtx s dst (rgenFor sameVm src dst) fixed (CopyReach s (rgenFor sameVm src dst) v0) := by
+  refine ⟨hwf, ?_, ?_, ?_, ?_, ?_⟩
+  rotate_right
+  · intro v o hv ho hk
+    rw [hcode v o hv ho hk]; exact List.nil_prefix
+  · intro v hv
+    cases hv with
+    | root => exact hlive
+    | step _ ho _ _ he => exact hnd _ _ ho _ he
+  · intro v o hv ho hs hk e he
+    exact CopyReach.step hv ho hs hk he
+  · intro v o hv ho hs
+    rcases rgenFor_cases (sameVm := sameVm) (src := src) (dst := dst) with ⟨hr, hcs⟩ | hr
+    · rw [hr] at hv hs
+      exact shortcut_sound' hinv hh h0 hcs hv ho hs
+    · rw [hr] at hs
+      unfold shareable at hs; simp [ho] at hs
+  · intro v o hv ho _ hk
+    exact hns v o hv ho hk
+
+/-! ### Rooting the copy; the transfer as a whole -/
+
+theorem addRoot_obj {s : State} {t : HeapId} {r i : Nat} {o : Obj}
+    (h : (addRoot s t r).obj i = some o) :
+    ∃ o0, s.obj i = some o0 ∧ o.owner = o0.owner ∧ o.home = o0.home ∧ o.kind = o0.kind ∧
+      (o.edges = o0.edges ∨ (o.edges = r :: o0.edges ∧ o0.kind = .thread ∧ o0.home = t)) := by
+  have h' : addRootObj s t r i = some o := h
+  unfold addRootObj at h'
+  cases ho : s.obj i with
+  | none => simp [ho] at h'
+  | some o0 =>
+    simp only [ho] at h'
+    by_cases hc : o0.kind = .thread ∧ o0.home = t
+    · rw [if_pos hc] at h'
+      have e := Option.some.inj h'
+      subst e
+      exact ⟨o0, rfl, rfl, rfl, rfl, Or.inr ⟨rfl, hc.1, hc.2⟩⟩
+    · rw [if_neg hc] at h'
+      have e := Option.some.inj h'
+      subst e
+      exact ⟨o0, rfl, rfl, rfl, rfl, Or.inl rfl⟩
+
+theorem addRoot_inv {s : State} {t : HeapId} {r : Nat} (hinv : Inv s) (hr : OKo s t r) :
+    Inv (addRoot s t r) := by
+  intro q oq p op hq he hp
+  obtain ⟨oq0, hq0, _, hqh, _, hqe⟩ := addRoot_obj hq
+  obtain ⟨op0, hp0, hpo, _, _, _⟩ := addRoot_obj hp
+  rw [hpo, hqh]
+  rcases hqe with hqe | ⟨hqe, _, hhome⟩
+  · rw [hqe] at he; exact hinv q oq0 p op0 hq0 he hp0
+  · rw [hqe] at he
+    rcases List.mem_cons.mp he with he | he
+    · subst he
+      obtain ⟨orr, hor, hpre⟩ := hr
+      rw [hor] at hp0; cases hp0
+      rw [hhome]; exact hpre
+    · exact hinv q oq0 p op0 hq0 he hp0
+
+theorem addRoot_homed {s : State} {t : HeapId} {r : Nat} (hh : Homed s) : Homed (addRoot s t r) := by
+  intro q oq hq hk
+  obtain ⟨oq0, hq0, ho, hhm, hkk, _⟩ := addRoot_obj hq
+  rw [ho, hhm]; exact hh q oq0 hq0 (by rw [← hkk]; exact hk)
+
+theorem addRoot_wf {s : State} {t : HeapId} {r : Nat} (hwf : WF s) : WF (addRoot s t r) := by
+  intro i hi
+  show addRootObj s t r i = none
+  unfold addRootObj
+  rw [hwf i hi]
+
+/-- The whole transfer (`re_root` / push / channel send) keeps the heap invariant and the homing of
+    every object, and the copy is owned by the destination heap or an ancestor of it. -/
+theorem transfer_inv' {s s' : State} {sameVm fixed : Bool} {src dst : HeapId} {v r : Nat}
+    (hwf : WF s) (hnd : NoDangling s) (hinv : Inv s) (hh : Homed s)
+    (hlive : ∃ o, s.obj v = some o) (h0 : ∀ o, s.obj v = some o → o.owner <+: src)
+    (hns : ∀ p o, CopyReach s (rgenFor sameVm src dst) v p → s.obj p = some o →
+      o.kind = .shallow → fixed = true)
+    (hcode : ∀ p o, CopyReach s (rgenFor sameVm src dst) v p → s.obj p = some o →
+      o.kind = .code → o.owner = [])
+    (h : transfer s sameVm src dst fixed v = some (s', r)) :
+    WF s' ∧ Inv s' ∧ Homed s' ∧ OKo s' dst r := by
+  unfold transfer at h
+  cases hd : deepClone s dst dst (rgenFor sameVm src dst) fixed v with
+  | none => simp [hd] at h
+  | some p =>
+    obtain ⟨s1, r1⟩ := p
+    simp only [hd, Option.some.injEq, Prod.mk.injEq] at h
+    obtain ⟨rfl, rfl⟩ := h
+    have ctx := cloneCtx_of_transfer (sameVm := sameVm) (fixed := fixed) (src := src) (dst := dst)
+      hwf hnd hinv hh hlive h0 hns hcode
+    obtain ⟨hwf1, _, hok, _⟩ := deepClone_post ctx CopyReach.root hd
+    have hinv1 := deepClone_inv ctx hnd hinv (List.prefix_refl _) CopyReach.root hd
+    have hh1 := deepClone_homed ctx hh CopyReach.root hd
+    refine ⟨addRoot_wf hwf1, addRoot_inv hinv1 hok, addRoot_homed hh1, ?_⟩
+    obtain ⟨orr, hor, hpre⟩ := hok
+    have : (addRoot s1 dst r1).obj r1 = addRootObj s1 dst r1 r1 := rfl
+    unfold addRootObj at this
+    rw [hor] at this
+    by_cases hc : orr.kind = .thread ∧ orr.home = dst
+    · simp only [if_pos hc] at this; exact ⟨_, this, hpre⟩
+    · simp only [if_neg hc] at this; exact ⟨_, this, hpre⟩
+
+/-- Everything below a value some thread holds survives every collection. -/
+theorem held_value_survives {s s' : State} {t : HeapId} {r : Nat} (hwf : WF s) (hinv : Inv s)
+    (hh : Homed s) (hg : GRootsGlobal s) (ht : t ≠ []) (hroot : AllRoots s r)
+    (hc : collect s t = some s') {p : Nat} {op : Obj} (hp : Reach s (fun x => x = r) p)
+    (hop : s.obj p = some op) : s'.obj p = some op := by
+  refine collect_safe' hwf hinv hh hg ht hc hop ?_
+  clear hop
+  induction hp with
+  | root hx => subst hx; exact Reach.root hroot
+  | step _ ho he ih => exact Reach.step ih ho he
 
 end GluonModel.GcHeap
